@@ -48,7 +48,7 @@ CODES = {"NOT_VALID": 2, "VALID": 1, "SUCCESS": 0, "ERROR": -1, "LOAD_PUB_KEY_ER
 # ---------------------------------------------------------------------------------------------
 def build_harness():
     return vlib.build_harness("bgpsec_ops", os.path.join(vlib.VERIF, "harness", "bgpsec_ops.c"),
-                              wraps=("hash_byte_sequence", "lrtr_dbg"), san="asan", bgpsec=True)
+                              wraps=("hash_byte_sequence", "lrtr_dbg", "ECDSA_sign"), san="asan", bgpsec=True)
 
 
 def build_model():
